@@ -156,6 +156,25 @@ func runC10(t testing.TB, c C10Case) (key, what string, sites map[string]int) {
 			} else {
 				wants = append(wants, c10Site{"c2-error", h})
 			}
+		case "badhost-header":
+			// the same, as a Host header (which may carry '%', '[', ']' and '*')
+			h := "xn--" + r.Text + ".example"
+			res, err := s.Request([]byte("GET /c HTTP/1.1\r\nHost: "+h+"\r\nConnection: close\r\n\r\n"), "GET", "")
+			if err != nil {
+				return "HARNESS", desc + ": " + err.Error(), sites
+			}
+			s.Barrier()
+			_, reported := s.WaitLine(0, from, "Could not determine callback URL")
+			switch {
+			case res.Status == 200:
+				wants = append(wants, c10Site{"script-sent-host", " URL:"})
+			case reported:
+				// the handler's own refusal: the notice names the Host verbatim
+				wants = append(wants, c10Site{"c2-error-host-header", h})
+			default:
+				coll("C10").Class("host-rejected-by-http-layer", 1)
+				continue
+			}
 		case "id-connect", "id-refused":
 			path := "/i/" + url.PathEscape(r.Text)
 			ic, err := s.OpenIn(path, host)
@@ -333,7 +352,7 @@ func genC10() *rapid.Generator[C10Case] {
 		n := rapid.IntRange(1, 5).Draw(t, "nreq")
 		nodir := rapid.IntRange(0, 5).Draw(t, "nodir") == 0
 		for i := 0; i < n; i++ {
-			k := rapid.SampledFrom([]string{"file-query", "file-query", "file-path", "c2-param", "c2-form", "c2-header", "host", "badhost", "id-connect", "id-refused", "zone"}).Draw(t, "kind")
+			k := rapid.SampledFrom([]string{"file-query", "file-query", "file-path", "c2-param", "c2-form", "c2-header", "host", "badhost", "badhost-header", "id-connect", "id-refused", "zone"}).Draw(t, "kind")
 			r := C10Req{Kind: k}
 			switch k {
 			case "file-query":
@@ -353,7 +372,7 @@ func genC10() *rapid.Generator[C10Case] {
 				if strings.HasPrefix(r.Text, " ") || strings.HasSuffix(r.Text, " ") {
 					r.Text = "a" + r.Text + "b"
 				}
-			case "c2-header", "host":
+			case "c2-header", "host", "badhost-header":
 				r.Text = genVerbText(t, false)
 			case "badhost":
 				r.Text = rapid.StringMatching(`[a-z]{1,5}`).Draw(t, "idn") + rapid.SampledFrom([]string{"-", "--", "9"}).Draw(t, "tail")
